@@ -2,7 +2,7 @@
 (* Trace validation for the analyses (C19; the action-trace clause of C17).
    loop      {g, domains, maxh, start, method, out = [hops, error]}    redirect-chain analysis of a graph
    reset     {cfg}
-   analyses  {items, test_examples, unit_ids, impact, existing_len_*}
+   analyses  {items, test_examples, unit_ids, impact, impact_reedit, existing_len_*}
        items[k]      per probe: explain = <<project, standalone, standalone with the rules reversed>> (hashes of the
                      projection on status, headers, body, backend code, log decision, applied rule / unit ids, seen
                      unit ids as a set, redirect chain, traced route set), resp_explain / resp_pipeline (hash of the
@@ -60,11 +60,16 @@ TraceAnalyses ==
           /\ Judge(it.explain[2] = it.explain[3], "depends_on_rule_order")
           /\ Judge(it.resp_explain = it.resp_pipeline,
                    IF it.request_time_with_code THEN "example_code_hides_request_time_decision" ELSE "response_differs_from_pipeline")
+          \* the rules the explanation reports as applied are those the live pipeline applies (same queries, same codes)
+          /\ Judge(it.request_time_with_code \/ ToSet(it.applied_explain) = ToSet(it.applied_pipeline), "applied_rules_differ_from_pipeline")
           /\ Judge(it.trace_action_equal, "trace_action_last_differs")
      /\ Judge(e.test_examples[1] = e.test_examples[2] /\ e.unit_ids[1] = e.unit_ids[2], "project_differs_from_standalone")
      /\ Judge(e.test_examples[2] = e.test_examples[3] /\ e.unit_ids[2] = e.unit_ids[3], "depends_on_rule_order")
      /\ Judge(e.impact = <<>> \/ e.impact[1] = e.impact[2], "project_differs_from_standalone")
      /\ Judge(e.impact = <<>> \/ e.impact[2] = e.impact[3], "depends_on_rule_order")
+     \* the same for another version of the changed rule (a draft edited again under the same action)
+     /\ Judge(e.impact_reedit = <<>> \/ e.impact_reedit[1] = e.impact_reedit[2], "project_differs_from_standalone")
+     /\ Judge(e.impact_reedit = <<>> \/ e.impact_reedit[2] = e.impact_reedit[3], "depends_on_rule_order")
      /\ \A k \in 1..Len(e.impact_items) :
           Judge(e.impact_items[k].resp_impact = e.impact_items[k].resp_pipeline,
                 IF e.impact_items[k].request_time_with_code THEN "example_code_hides_request_time_decision" ELSE "response_differs_from_pipeline")
